@@ -251,7 +251,18 @@ func (t *tattach) handle(cs *connState) message {
 	if err != nil {
 		return newErr(err)
 	}
-	qid, valid, attr, err := sf.GetAttr(AttrMaskAll)
+	// GetAttr is a read operation on the root path; take the same locks as
+	// any other read of the root, so that it cannot run concurrently with a
+	// write or global operation there.
+	var (
+		qid   QID
+		valid AttrMask
+		attr  Attr
+	)
+	err = (&fidRef{server: cs.server, pathNode: cs.server.pathTree}).safelyRead(func() (err error) {
+		qid, valid, attr, err = sf.GetAttr(AttrMaskAll)
+		return err
+	})
 	if err != nil {
 		sf.Close() // Drop file.
 		return newErr(err)
